@@ -502,7 +502,14 @@ impl World {
                        if rng.chance(1, 2) && p.lens[seg] > 1 { p.hops.remove(j); p.lens[seg] -= 1; what = format!("hop_drop j={j}"); }
                        else { let h = p.hops[j].clone(); p.hops.insert(j, h); p.lens[seg] += 1; what = format!("hop_dup j={j}"); } }
                 10 => { // link down: one of the links (preferably on the path)
-                        let li = rng.below(topo.links.len() as u64) as usize; topo.links[li].up = false; what = format!("link_down {li}"); }
+                        if rng.chance(1, 2) {
+                            let li = rng.below(topo.links.len() as u64) as usize; topo.links[li].up = false; what = format!("link_down {li}");
+                        } else {
+                            // an arbitrary up/down assignment
+                            let mut downs = vec![];
+                            for (li, l) in topo.links.iter_mut().enumerate() { if rng.chance(1, 3) { l.up = false; downs.push(li); } }
+                            what = format!("link_down {:?}", downs);
+                        } }
                 11 => { // clock relative to timestamp / expiry of the first hop
                         let ts = p.infos[0].ts; let e = p.hops.iter().map(|h| h.exp).min().unwrap_or(0) as u64;
                         let exp = ts as u64 + ((e + 1) * 675) / 2;
@@ -614,6 +621,44 @@ impl World {
                 let c = SegCase { tag: self.topo.tag.clone(), beta0: seg.info().segment_id, ts: seg.info().timestamp, entries };
                 if seen.insert(c.coq()) && out.len() < max { out.push(c); }
             }
+        }
+        out
+    }
+}
+
+// ------------------------------------------------------------------ joinability (C01, last sentence)
+pub struct JoinCase { pub tag: String, pub src: u64, pub dst: u64, pub cores: Vec<u64>, pub segs: Vec<Vec<u64>>, pub offered: usize }
+impl JoinCase {
+    pub fn coq(&self) -> String {
+        format!("mkJCase {} {} {} {} {}", self.src, self.dst,
+            coq_list(self.cores.iter().map(|c| c.to_string())),
+            coq_list(self.segs.iter().map(|s| coq_list(s.iter().map(|x| x.to_string())))), self.offered)
+    }
+    pub fn human(&self) -> String {
+        format!("topo={} {:x}->{:x} segments={} offered={}", self.tag, self.src, self.dst, self.segs.len(), self.offered)
+    }
+}
+impl World {
+    /// for AS pairs: the segments the control plane lists for the pair and the number of paths offered
+    pub fn join_cases(&self, rng: &mut Rng, max: usize) -> Vec<JoinCase> {
+        let reg = SegmentRegistry::from_topology(&self.real);
+        let when = chrono::DateTime::<chrono::Utc>::from_timestamp(self.ts as i64, 0).unwrap();
+        let cores: Vec<u64> = self.topo.ases.iter().filter(|a| a.core).map(|a| a.ia).collect();
+        let mut pairs: Vec<(u64, u64)> = vec![];
+        for s in &self.topo.ases { for d in &self.topo.ases { if s.ia != d.ia { pairs.push((s.ia, d.ia)); } } }
+        rng.shuffle(&mut pairs);
+        let mut out = vec![];
+        for (s, d) in pairs {
+            if out.len() >= max { break; }
+            let segs: Vec<Vec<u64>> = match reg.endhost_list_segments(IsdAsn(s), IsdAsn(s), IsdAsn(d)) {
+                Ok(ls) => match ls.into_path_segments(&self.real, when, 0, 63) {
+                    Ok(ps) => ps.iter_all().map(|seg| seg.as_entries.iter().map(|e| e.entry().local.0).collect()).collect(),
+                    Err(_) => continue,
+                },
+                Err(_) => vec![],
+            };
+            let offered = reg.paths(IsdAsn(s), IsdAsn(d), when, &self.real).map(|p| p.len()).unwrap_or(0);
+            out.push(JoinCase { tag: self.topo.tag.clone(), src: s, dst: d, cores: cores.clone(), segs, offered });
         }
         out
     }
